@@ -67,10 +67,15 @@ def make_input(net, perm=None):
         recs.append("<point> <id>%s</id> <x>%.8f</x> <y>%.8f</y> <z>%.8f</z> <geoid>0</geoid> %s </point>" % (ids[i], g[0], g[1], g[2], st))
     obs = []
     k = 0
+    gross = net.get("gross", 0)
+    # gross = 1: the last (redundant) vector is wrong by 5 m; gross = 2: the spanning vector that alone reaches the last point
+    gidx = len(net["vectors"]) if gross == 1 else (net["np"] - 1 if gross == 2 else 0)
     for (a, b) in net["vectors"]:
         k += 1
         nz = 0.0 if net["noise"] == 0 else ((k * (net["noise"] + 2)) % 7 - 3) / 1000.0
         d = [xyz[b - 1][j] - xyz[a - 1][j] for j in range(3)]
+        if k == gidx:
+            d[0] += 5.0
         cov = COVS[net["cov"]]
         band = 0 if len(cov) == 3 else 2
         obs.append("<obs>\n<vector> <from>%s</from> <to>%s</to> <dx>%.4f</dx> <dy>%.4f</dy> <dz>%.4f</dz> </vector>\n<cov-mat> <dim>3</dim> <band>%d</band> %s </cov-mat>\n</obs>" % (
@@ -185,7 +190,10 @@ def run(ctx):
     nets = nets[:: max(1, len(nets) // (800 if q else 6000))]
     ctx.note("G3Session.tla: %d states, %d networks" % (r.distinct, len(nets)))
     bdir = vlib.build("plain", ["gama-g3", "drv_adjxml"])
-    g3 = vlib.binpath("plain", "gama-g3")
+    vlib.build("asan", ["gama-g3"])
+    g3 = vlib.binpath("asan", "gama-g3")          # gama-g3 runs under ASan + UBSan
+    g3env = dict(os.environ)
+    g3env.update(vlib.ASAN_ENV)
     wd = os.path.join(ctx.outdir, "g3")
     os.makedirs(wd, exist_ok=True)
     import concurrent.futures
@@ -197,7 +205,7 @@ def run(ctx):
         base = os.path.join(wd, "n%d_%s_%d" % (ni, alg, perm))
         open(base + ".xml", "w").write(text)
         try:
-            p = subprocess.run([g3, "--algorithm", alg, "--project-equations", base + ".pe", base + ".xml", base + ".out"], stdout=subprocess.PIPE, stderr=subprocess.STDOUT, timeout=120)
+            p = subprocess.run([g3, "--algorithm", alg, "--project-equations", base + ".pe", base + ".xml", base + ".out"], stdout=subprocess.PIPE, stderr=subprocess.STDOUT, timeout=120, env=g3env)
             rc, out = p.returncode, p.stdout.decode("utf-8", "replace")
         except subprocess.TimeoutExpired:
             rc, out = -9, "timeout"
@@ -229,6 +237,9 @@ def run(ctx):
         for (ni_, alg, perm, rc, out, res, base, text, ids, xyz) in lst:
             def report(chk, msg, text=text, alg=alg):
                 ctx.violation("%s|%s|%s" % (chk, alg, tag), "gama-g3 --algorithm %s: %s" % (alg, msg), replay={"input": text, "net": net})
+            if "ERROR: AddressSanitizer" in out or "runtime error:" in out:
+                report("sanitizer", out[-1500:])
+                continue
             if rc != 0 or res is None:
                 report("run", "rc=%s, no result: %s" % (rc, out[-400:]))
                 continue
@@ -239,6 +250,8 @@ def run(ctx):
             if net["noise"] == 0:
                 for i, pid in enumerate(ids):
                     p = res["pts"].get(pid)
+                    if i + 1 == net.get("dropped", 0):
+                        continue                       # no observation of this point is left
                     if p is None:
                         report("truth_missing", "point %s missing in the results" % pid)
                         continue
